@@ -953,6 +953,25 @@ theorem resolve_relex_eq_id_of_stable_run_partial (d : Delims) (tbl : Table) (n 
   have e := resolve_eq_id_of_stableRun n s seen hst
   rw [resolve_fuel_mono (relex d) tbl hm s seen (by rw [e]; exact hn), e]
 
+/-- fuel-free form, any table: on a run that is stable from some fuel on, the model under `norm`
+    ends with `r` iff the `norm = id` model does -/
+theorem resolves_norm_iff_id_of_stable_run {s : Toks} {seen : List Toks}
+    (hst : ∃ n0, ∀ n, n0 ≤ n → stableRun norm n tbl s seen = true) (r : Res) :
+    Resolves norm tbl s seen r ↔ Resolves id tbl s seen r :=
+  resolves_norm_iff_id_of_stable hst r
+
+/-- `resolve_iff_evalT_nested_relex_partial` with the per-run hypothesis instead of the clean
+    alphabet: the model AS THE DRIVER RUNS IT (real re-lexing, any delimiter triple) ends with `r` on
+    the rendered template iff the reference evaluator ends with `r`, on every run that is key-safe
+    and on whose looked-up texts re-lexing is stable -/
+theorem resolve_iff_evalT_nested_relex_stable_partial (d : Delims) {tt : TTable2} (hT : tt.WF)
+    (t : Tmpl2) (st : List Toks) (ht : t.WF)
+    (hk : ∃ m0, ∀ m, m0 ≤ m → keySafe tt m t st = true)
+    (hst : ∃ n0, ∀ n, n0 ≤ n → stableRun (relex d) n (toTable2 tt) (render2 t) st = true) (r : Res) :
+    Resolves (relex d) (toTable2 tt) (render2 t) st r ↔
+      ∃ m, evalT2 tt m t st = r ∧ r ≠ .outOfFuel :=
+  (resolves_norm_iff_id_of_stable hst r).trans (resolves_iff_evalT2 hT t st ht hk r)
+
 /-- the old theorem is an instance of the new one -/
 theorem resolve_terminates_balanced_relex_of_stable (d : Delims) (hd : d.LexOK) (tbl : Table)
     (hb : ∀ kv ∈ tbl, Balanced kv.2) (hc : ∀ kv ∈ tbl, Over (CleanTok d) kv.2)
@@ -980,6 +999,32 @@ theorem nonvacuous_relex_stable :
   refine ⟨by decide, by decide, hst, fun m hm => ?_, by decide⟩
   rw [resolve_relex_eq_id_of_stable_run_partial d tbl 3 phA [] (by decide) (hst 3) m hm]
   decide
+
+/-- the hypotheses of `resolve_iff_evalT_nested_relex_stable_partial` on an instance OUTSIDE the
+    clean domain: template table o = `$`, k = `a`, a = `${o}{x` (not clean: `$` starts the prefix),
+    template `${${k}}|${o}{`; the run is key-safe and stable; the model under the real re-lexing and
+    the evaluator end with the characters `${x|${` -/
+theorem nonvacuous_nested_relex_stable :
+    let d : Delims := ⟨['$', '{'], ['}'], [':']⟩
+    let tt : TTable2 := [([.ch 'o'], .lit [.ch '$'] .done), ([.ch 'k'], .lit tA .done),
+      (tA, .ph (.lit [.ch 'o'] .done) (.lit [.ch '{', .ch 'x'] .done))]
+    let t : Tmpl2 := .ph (.ph (.lit [.ch 'k'] .done) .done)
+      (.lit [.ch '|'] (.ph (.lit [.ch 'o'] .done) (.lit [.ch '{'] .done)))
+    let out : Toks := [.ch '$', .ch '{', .ch 'x', .ch '|', .ch '$', .ch '{']
+    tt.WF ∧ t.WF ∧ ¬ (∀ kv ∈ toTable2 tt, Over (CleanTok d) kv.2) ∧
+    (∃ m0, ∀ m, m0 ≤ m → keySafe tt m t [] = true) ∧
+    (∃ n0, ∀ n, n0 ≤ n → stableRun (relex d) n (toTable2 tt) (render2 t) [] = true) ∧
+    Resolves (relex d) (toTable2 tt) (render2 t) [] (.ok out) ∧
+    (∃ m, evalT2 tt m t [] = .ok out) ∧ relex d out ≠ out := by
+  intro d tt t out
+  have hk : ∃ m0, ∀ m, m0 ≤ m → keySafe tt m t [] = true :=
+    KeySafeEv.of_run (n := 10) (by decide) (by decide)
+  have hst : ∃ n0, ∀ n, n0 ≤ n → stableRun (relex d) n (toTable2 tt) (render2 t) [] = true :=
+    ⟨0, fun n _ => stableRun_all_of_run (n := 10) (by decide) (by decide) n⟩
+  have hev : evalT2 tt 10 t [] = .ok out := by decide
+  exact ⟨by decide, by decide, by decide, hk, hst,
+    (resolve_iff_evalT_nested_relex_stable_partial d (by decide) t [] (by decide) hk hst _).mpr
+      ⟨10, hev, by simp⟩, ⟨10, hev⟩, by decide⟩
 
 /-- the divergent run of `resolve_diverges_relex_counterexample` (D31) is NOT stable: from fuel 7
     on the check fails (the looked-up text `:${a}}${:${a}w${a}}${:${a}w` re-lexes to other tokens),
@@ -1089,7 +1134,9 @@ theorem nonvacuous_evalT_cycle :
     of the input or of the delimiters; `stableRun_of_clean`: implied by the static condition;
     `nonvacuous_relex_stable`: strictly weaker; `relex_counterexample_not_stable`: violated by the D31
     run; `relex_unstable_but_ends`: sufficient, not necessary; `stableRun_all_of_ended`: one ended
-    stable run decides it; `resolve_norm_irrelevant_of_stable_run`: a stable run is the `id` run).
+    stable run decides it; `resolve_norm_irrelevant_of_stable_run`: a stable run is the `id` run;
+    `resolve_iff_evalT_nested_relex_stable_partial`: the nested-key equivalence under the real `norm`
+    with the per-run hypothesis instead of the clean alphabet).
 
   * resolve_refines_evalT — PROVED on the flat fragment (`resolve_refines_evalT_flat_partial`:
     plain keys, template defaults, template values; `resolve_iff_evalT_flat_partial` gives both
